@@ -1,5 +1,6 @@
 import GateryModel.C16.FifoLive
 import GateryModel.C16.Bits
+import GateryModel.C16.WidthP
 /-!
 # C16 — property theorems
 
@@ -18,7 +19,10 @@ cycle); `Good S T ok` says: for every environment that keeps the interface law o
 that was not accepted/committed) and the output keeps the interface law. `T` is the list specification
 (`Trans.idT` = identity for the 1:1 stages, `extSpec`/`redSpec` for the width changers, characterised below).
 Proofs: `C16/Lemmas.lean` (generic refinement arguments + composition), `Stages.lean`, `FifoProof.lean`, `Width.lean`,
-`Chains.lean`, `Live.lean`, `Live2.lean`, `FifoLive.lean`, `Bits.lean`.
+`Chains.lean`, `Live.lean`, `Live2.lean`, `FifoLive.lean`, `Bits.lean`, `WidthP.lean`.
+Packet.h `widthExtend` is modelled (`widthExtendP`) and specified (`pExtSpec`) but has no theorem: on streams with an explicit
+`Sop` the code as written does not meet the specification (its sop flag is cleared while the group's last beat is absent or
+stalled) — the correspondence check reports that on the real code.
 
 Not in this file (see the check's evidence / report): the tie of each model to the C++ is by correspondence
 (harness/c16.cpp | Driver/C16.lean); the FIFO's pointer/memory storage is abstracted to a list (that is property C15).
@@ -101,6 +105,27 @@ theorem extendWidth_preserves {α β δ : Type} (ratio : Nat) (d0 : δ) (dataOf 
 
 theorem reduceWidth_preserves {α β : Type} (ratio : Nat) (slice : Nat → α → β) (hr : 0 < ratio) :
     Good (reduceWidth ratio slice) (redSpec ratio slice) okTrue := good_reduceWidth ratio slice hr
+
+/-- Packet.h `widthReduce` (the packet-aware reduction, with the per-meta handlers for sop, eop, empty, emptyBits, byteEnable
+    folded into `slice`/`fin`): for every slice function whose last part ends the beat, it emits for each accepted wide beat
+    exactly the parts up to the first final one, in order, under every valid/ready schedule -/
+theorem widthReduce_preserves {α β : Type} (slice : Nat → α → β) (fin : Nat → α → Bool) (ratio : Nat) (hr : 0 < ratio)
+    (hlast : ∀ x, fin (ratio - 1) x = true) : Good (widthReduceP slice fin) (pRedSpec ratio slice fin) okTrue :=
+  good_widthReduceP slice fin ratio hr hlast
+
+/-- what the specification says about the start-of-packet flag: of the narrow beats cut from one wide beat only the first
+    can carry sop, and it does iff the wide beat did (Packet.h:710-713, `in.sop & beat.isFirst()`); likewise data word and
+    byte-enable group `i` go to part `i`, and eop only to a part at or after the last non-empty one -/
+theorem widthReduce_slice_meta (ratio w bw ek i : Nat) (x : Beat) :
+    (pRedSlice ratio w bw ek i x).sop = (x.sop && (i == 0)) ∧
+    (pRedSlice ratio w bw ek i x).data = partWord w i x.data ∧ (pRedSlice ratio w bw ek i x).be = partWord bw i x.be ∧
+    ((pRedSlice ratio w bw ek i x).eop = true → x.eop = true) ∧ (pRedSlice ratio w bw ek i x).aux = x.aux := by
+  refine ⟨rfl, rfl, rfl, ?_, rfl⟩
+  simp only [pRedSlice, Bool.and_eq_true]; exact fun h => h.1
+
+theorem widthReduce_concrete_preserves (ratio w bw ek : Nat) (hr : 0 < ratio) :
+    Good (Desc.pred ratio w bw ek).stage (pRedSpec ratio (pRedSlice ratio w bw ek) (pRedFin ratio w bw ek)) okTrue :=
+  good_widthReduceP _ _ ratio hr (pRedFin_last ratio w bw ek hr)
 
 /-! ### compositions -/
 
